@@ -130,6 +130,14 @@ def do_check(pid, mod, args, seed, scratch):
     fixed = [f for f in all_known if f.get("status") == "fixed"]
     exclude = sorted({f["signature"] for f in known if f.get("signature")})
     shards = mod.shards(tier)
+    if tier == "thorough":
+        # thorough = everything the quick tier explores (run first, with its own budgets) + the deeper shards,
+        # cheapest first, until the wall-time budget is used up
+        quick = mod.shards("quick")
+        qnames = {s["name"] for s in quick}
+        for s in quick:
+            s["_quick"] = True
+        shards = quick + [s for s in shards if s["name"] not in qnames]
     for s in shards:
         s.setdefault("params", {})
         if exclude and s.get("accepts_exclude", False):
@@ -140,9 +148,11 @@ def do_check(pid, mod, args, seed, scratch):
     if tier == "quick":
         shards.sort(key=lambda s: -float(s.get("cost", s.get("budget", 60))))  # longest first: best packing
     else:
-        shards.sort(key=lambda s: float(s.get("cost", s.get("budget", 60))))  # cheapest first: what fits the wall-time budget gets explored
+        shards.sort(key=lambda s: (0 if s.get("_quick") else 1, float(s.get("cost", s.get("budget", 60)))))  # quick shards, then cheapest first
         for s in shards:
             s["budget"] = min(float(s.get("budget", 60)), TIER_SHARD_BUDGET_S[tier])
+    for s in shards:
+        s.pop("_quick", None)
     not_after = t0 + TIER_DEADLINE_S[tier]
     print(f"[{pid}] tier={tier} shards={len(shards)} jobs={args.jobs} known_open={len(known)}", flush=True)
 
